@@ -297,3 +297,14 @@ def defined(name, f, *args):
 def unknown_bool(tag):
     """an unknown boolean (one per call): a contract that does not say when something happens"""
     raise NotImplementedError('unknown_bool has no native value')
+
+
+def restrict_str(d, keys):
+    """the sub-dict of d on the given str keys"""
+    return {k: d[k] for k in keys if k in d}
+
+
+def lemma_point(name, *values):
+    """a named program point inside an abstract contract: the lemma that installed the contract states
+    its claim there (natively: nothing)"""
+    return None
